@@ -36,7 +36,7 @@ class TypedErrB(JsonRpcError):
     message = 'typed error b'
 
 
-TYPED_CODES = {2001: TypedErrA, 2002: TypedErrB}
+TYPED_CODES = {2001: TypedErrA, 2002: TypedErrB}   # plus ResourceNotFound (2003), defined below
 
 
 class ZzqSecretCustomError(Exception):
@@ -99,8 +99,28 @@ class ProtoFailure(Exception):
         self.data = data
 
 
+class ResourceNotFound(JsonRpcError):
+    """An application error class with a constructor of its own (domain arguments instead of code/message/data)."""
+
+    # no class-level code: the class is deliberately NOT registered for deserialisation (a registered class must be
+    # constructible as cls(code, message, data)); it exists on the serving side only
+    def __init__(self, resource: Any):
+        super().__init__(code=2003, message='resource not found', data={'resource': resource})
+        self.resource = resource
+
+
 def to_jsonrpc_error(pf: ProtoFailure) -> JsonRpcError:
-    return JsonRpcError(code=pf.code, message=pf.message, data=UNSET if pf.data is NODATA else pf.data)
+    """What the method actually raises: the class registered for the code when there is one (the way applications and
+    the library itself raise typed errors), the generic class otherwise."""
+    data = UNSET if pf.data is NODATA else pf.data
+    if pf.code == 2003 and isinstance(pf.data, dict) and set(pf.data) == {'resource'} \
+            and pf.message == 'resource not found':
+        return ResourceNotFound(pf.data['resource'])
+    from pjrpc.common.exceptions import JsonRpcErrorMeta
+    cls = JsonRpcErrorMeta.__errors_mapping__.get(pf.code) if isinstance(pf.code, int) else None
+    if cls is not None:
+        return cls(code=pf.code, message=pf.message, data=data)
+    return JsonRpcError(code=pf.code, message=pf.message, data=data)
 
 
 def make_proto_failure(code: int, message: str, data_mode: str = 'absent', data: Any = None) -> ProtoFailure:
@@ -198,6 +218,28 @@ def typed_default_valid(arguments):
 VALIDATED = {'typed': (TYPED_SCHEMA, typed_valid), 'typed_default': (None, typed_default_valid)}
 
 
+def b_fail_typed(tok, resource):
+    raise ProtoFailure(2003, 'resource not found', {'resource': resource})
+
+
+def b_mixed_keys(tok, n=1):
+    """A JSON-encodable result whose object keys are of mixed Python types."""
+    return {1: 'one', 'b': n, 2.5: [tok]}
+
+
+def b_single(value):
+    """Exactly one parameter (no token): the shape `batch[('single', {...})]` exercises."""
+    return {'got': value}
+
+
+def b_explode(tok):
+    """Never reached: the validator attached to this method fails with an ordinary exception (not a ValidationError)."""
+    return tok
+
+
+INTERNAL = ('explode',)   # methods whose handling fails inside the library's own machinery -> -32603
+
+
 def b_vecho(tok, value=None):
     """Body of the class-based view method ``vecho`` (a fresh view instance serves every request)."""
     return [tok, value]
@@ -210,7 +252,8 @@ def b_ctx_echo(ctx, tok, value=None):
 BODIES: Dict[str, Callable[..., Any]] = {
     'echo': b_echo, 'add': b_add, 'none': b_none, 'pair': b_pair,
     'fail_proto': b_fail_proto, 'fail_exc': b_fail_exc, 'slow': b_slow, 'op_ab': b_op_ab, 'op_ba': b_op_ba, 'typed': b_typed,
-    'typed_default': b_typed_default, 'vecho': b_vecho,
+    'typed_default': b_typed_default, 'vecho': b_vecho, 'fail_typed': b_fail_typed, 'mixed_keys': b_mixed_keys,
+    'single': b_single, 'explode': b_explode,
 }
 SIGNATURES: Dict[str, inspect.Signature] = {name: inspect.signature(fn) for name, fn in BODIES.items()}
 
@@ -232,6 +275,7 @@ def direct(name: str, args: Tuple[Any, ...] = (), kwargs: Optional[Dict[str, Any
 
 
 VIEW_METHODS = ('vecho',)
+DEFERRED = ('pair', 'add', 'fail_exc')   # served through a plain function that returns the coroutine
 _MISSING: Any = type('Missing', (), {'__repr__': lambda self: 'MISSING'})()
 
 
@@ -253,6 +297,9 @@ class Service:
                 continue
             coro = flavour == 'async' or (flavour == 'mixed' and i % 2 == 0)
             self.methods[name] = self._wrap_async(name, body) if coro else self._wrap_sync(name, body)
+            if coro and name in DEFERRED:
+                # not a coroutine function, but it returns a coroutine: an async method behind an ordinary decorator
+                self.methods[name] = self._defer(name, body, self.methods[name])
             self.is_coro[name] = coro
 
     # -- wrappers ----------------------------------------------------------------------------------
@@ -306,6 +353,13 @@ class Service:
 
         return method
 
+    @staticmethod
+    def _defer(name: str, body: Callable[..., Any], inner: Callable[..., Any]) -> Callable[..., Any]:
+        @ft.wraps(body)
+        def method(*args: Any, **kwargs: Any) -> Any:
+            return inner(*args, **kwargs)
+        return method
+
     def add_flaky(self, netname: str) -> None:
         """``flaky(tok)``: its outcome at each execution is scripted per transport attempt (world.plan)."""
         world, node = self.world, self.node
@@ -336,6 +390,13 @@ class Service:
         validator = None
         for name in (names or sorted(self.methods)):
             method = self.methods[name]
+            if name in INTERNAL:
+                import pjrpc.server.validators.base as vbase
+
+                class BrokenValidator(vbase.BaseValidator):
+                    def validate_method(self, method: Any, params: Any, exclude: Any = (), **kwargs: Any) -> Any:
+                        raise RuntimeError('the validator itself failed')
+                method = BrokenValidator().validate(method)
             if name in VALIDATED:
                 # ONE schema validator per service, attached the way users do it: a validator-level default schema,
                 # ``validator.validate(method, schema=...)`` for methods with their own schema and a bare
